@@ -8,7 +8,9 @@ Inductive act :=
 | AWrite (bs : str)
 | ANext
 | ACancel
-| APanic (v : nat).
+| APanic (v : nat)
+| AMapRH (k : nat)          (* c.Map(ReturnHandler(custom k)): request-scoped return handler *)
+| ASub.                     (* a sub-request through the same application (a separate request) *)
 
 Inductive handler :=
 | HNormal (acts : list act) (ret : list rv)   (* a scripted handler body and what it returns *)
@@ -24,31 +26,38 @@ Inductive event :=
 | Exit (i : nat)                              (* its body returns normally *)
 | Unwind (i : nat)                            (* a panic leaves its body *)
 | NextCall (i : nat)                          (* it calls c.Next() *)
-| NextRet (i : nat).                          (* that call returns *)
+| NextRet (i : nat)                           (* that call returns *)
+| Sent.                                       (* the status line reaches the client (recorded by the wire) *)
 
 Record st := mkst {
   idx : nat;                 (* context.index *)
   status : Z;                (* ResponseWriter.Status() *)
   body : list chunk;         (* oldest first *)
   cancelled : bool;          (* request context done *)
-  trace : list event         (* oldest first *)
+  trace : list event;        (* oldest first *)
+  rh : option nat            (* ReturnHandler mapped in the request scope *)
 }.
 
 Inductive outcome := Done (s : st) | Panicked (v : nat) (s : st) | OutOfFuel.
 
-Definition set_idx (s : st) (i : nat) := mkst i (status s) (body s) (cancelled s) (trace s).
-Definition log (s : st) (e : event) := mkst (idx s) (status s) (body s) (cancelled s) (trace s ++ [e]).
-Definition set_cancelled (s : st) := mkst (idx s) (status s) (body s) true (trace s).
+Definition set_idx (s : st) (i : nat) := mkst i (status s) (body s) (cancelled s) (trace s) (rh s).
+Definition log (s : st) (e : event) := mkst (idx s) (status s) (body s) (cancelled s) (trace s ++ [e]) (rh s).
+Definition set_cancelled (s : st) := mkst (idx s) (status s) (body s) true (trace s) (rh s).
+Definition set_rh (s : st) (k : nat) := mkst (idx s) (status s) (body s) (cancelled s) (trace s) (Some k).
 
+(* the first status wins; that is when the status line reaches the client *)
 Definition w_header (c : Z) (s : st) : st :=
-  if Z.eqb (status s) 0 then mkst (idx s) c (body s) (cancelled s) (trace s) else s.
+  if Z.eqb (status s) 0 then mkst (idx s) c (body s) (cancelled s) (trace s ++ [Sent]) (rh s) else s.
 
 Definition w_body (head : bool) (ch : chunk) (s : st) : st :=
   let s1 := w_header 200 s in
-  if head then s1 else mkst (idx s1) (status s1) (body s1 ++ [ch]) (cancelled s1) (trace s1).
+  if head then s1 else mkst (idx s1) (status s1) (body s1 ++ [ch]) (cancelled s1) (trace s1) (rh s1).
 
 Definition w_ops (head : bool) (ops : list wop) (s : st) : st :=
   fold_left (fun s o => match o with WHeader c => w_header c s | WBody b => w_body head (CBytes b) s end) ops s.
+
+(* a user-supplied ReturnHandler (identified by k): writes its own status and marker *)
+Definition custom_rh (k : nat) : list wop := [WHeader (290 + Z.of_nat k); WBody [82; 48 + N.of_nat k]%N].
 
 Definition written (s : st) : bool := negb (Z.eqb (status s) 0).
 
@@ -60,6 +69,7 @@ Variable hs : list handler.          (* middleware ++ group handlers ++ route ha
 Variable action : option handler.    (* Flame.Action *)
 Variable head : bool.                (* request method is HEAD *)
 Variable dev : bool.                 (* flamego.Env() == EnvTypeDev *)
+Variable apprh : option nat.         (* a ReturnHandler mapped in the application scope *)
 
 Definition n := length hs.
 
@@ -86,6 +96,8 @@ Fixpoint exec (l : list act) (s : st) {struct l} : outcome :=
       | AWrite bs => exec l' (w_body head (CBytes bs) s)
       | ACancel => exec l' (set_cancelled s)
       | APanic v => Panicked v s
+      | AMapRH k => exec l' (set_rh s k)
+      | ASub => exec l' s                       (* a separate request: nothing of this one changes *)
       | ANext =>
           match next (log s (NextCall i)) with
           | Done s1 => exec l' (log s1 (NextRet i))
@@ -114,6 +126,16 @@ End Exec.
 
 Definition ret_of (h : handler) : list rv := match h with HNormal _ r => r | _ => [] end.
 
+(* handleReturn is only called when something was returned; the nearest ReturnHandler is used *)
+Definition rendering (s : st) (h : handler) : list wop :=
+  match ret_of h with
+  | [] => []
+  | vals => match rh s with
+            | Some k => custom_rh k
+            | None => match apprh with Some k => custom_rh k | None => render vals end
+            end
+  end.
+
 Fixpoint run (fuel : nat) (s : st) {struct fuel} : outcome :=
   match fuel with
   | O => OutOfFuel
@@ -127,14 +149,14 @@ Fixpoint run (fuel : nat) (s : st) {struct fuel} : outcome :=
             match invoke (run f) (idx s) h s with
             | Done s1 =>
                 let s2 := set_idx s1 (S (idx s1)) in         (* c.index++ *)
-                let s3 := w_ops head (render (ret_of h)) s2 in  (* return values rendered *)
+                let s3 := w_ops head (rendering s2 h) s2 in     (* return values rendered *)
                 if written s3 then Done s3 else run f s3
             | o => o
             end
         end
   end.
 
-Definition init : st := mkst 0 0 [] false [].
+Definition init : st := mkst 0 0 [] false [] None.
 
 Definition serve : outcome := run (S (S n)) init.
 End Chain.
@@ -147,9 +169,11 @@ End Chain.
 Definition scripted (hs : list handler) (action : option handler) (i : nat) : bool :=
   match handler_at hs action i with Some (HNormal _ _) => true | _ => false end.
 
-Record jst := mkj { jnext : nat; jstk : list nat; jprev : option event }.
+Record jst := mkj { jnext : nat; jstk : list nat; jprev : option event;
+                    jw : bool;      (* the status line has reached the client *)
+                    jret : bool }.  (* some Next() call has returned *)
 
-Definition j0 : jst := mkj 0 [] None.
+Definition j0 : jst := mkj 0 [] None false false.
 
 Section Judge.
 Variable hs : list handler.
@@ -178,14 +202,22 @@ Definition jstep (j : jst) (e : event) : option jst :=
   match e with
   | Enter i st c =>
       (* chain order: not before jnext, nothing scripted skipped, at most once (jnext moves past i);
-         nesting: deeper than whatever is running; advance rule *)
+         nesting: deeper than whatever is running; advance rule; the handler sees a truthful status;
+         once a Next() call has returned (the remainder of the chain ran inside it, as far as it
+         got) a handler can only start if the response has been written *)
       if Nat.leb (jnext j) i && none_scripted (jnext j) (i - jnext j) && scripted hs action i
          && top_lt (jstk j) i && may_start (jprev j) st c
-      then Some (mkj (S i) (i :: jstk j) (Some e)) else None
+         && Bool.eqb (Z.eqb st 0) (negb (jw j)) && (negb (jret j) || jw j)
+      then Some (mkj (S i) (i :: jstk j) (Some e) (jw j) (jret j)) else None
   | Exit i | Unwind i =>
-      if top_is (jstk j) i then Some (mkj (jnext j) (tl (jstk j)) (Some e)) else None
-  | NextCall i | NextRet i =>
-      if top_is (jstk j) i then Some (mkj (jnext j) (jstk j) (Some e)) else None
+      if top_is (jstk j) i then Some (mkj (jnext j) (tl (jstk j)) (Some e) (jw j) (jret j)) else None
+  | NextCall i =>
+      if top_is (jstk j) i then Some (mkj (jnext j) (jstk j) (Some e) (jw j) (jret j)) else None
+  | NextRet i =>
+      if top_is (jstk j) i then Some (mkj (jnext j) (jstk j) (Some e) (jw j) true) else None
+  | Sent =>
+      (* at most one status line *)
+      if jw j then None else Some (mkj (jnext j) (jstk j) (jprev j) true (jret j))
   end.
 
 Fixpoint jrun (j : jst) (tr : list event) : option jst :=
